@@ -30,6 +30,17 @@ def jobs(tier):
         J.append(conc("1,0,0,0" if q else "2,0,0,0", workers=16, hmap=hm, init=init, enum=2, nenum=2, nops=2, ninit=2, init_keys=0x01, **U))
     J.append(conc("2,0,0,0", hmap=0, ninit=3, init_keys=0x021, prog0=prog((K_DEL, 0)), prog1=prog((K_LOOKUP, 0), (K_ADDU, 0)),
                   prog2=prog((K_WALKK, 0)), **U))
+    # the contended key's node sits IN FRONT of a colliding other key: a re-inserted node must go to the head of the equal-hash run,
+    # never behind the position of a traversal that already passed the old node
+    # (reclaim=2: removed nodes are freed after the thread's last operation, as with call_rcu, so a thread can delete and
+    # re-insert while a reader is still inside the section that saw the old node)
+    J.append(conc("2,0,0,0" if q else "3,0,0,0", hmap=0, ninit=2, init_keys=0x10, reclaim=2, prog0=prog((K_DEL, 0), (K_ADDU, 0)),
+                  prog1=prog((K_WALKALL, 0)), **U))
+    J.append(conc("2,0,0,0", hmap=0, ninit=2, init_keys=0x10, reclaim=2, prog0=prog((K_DEL, 0), (K_ADDU, 0)),
+                  prog1=prog((K_WALKK, 0), (K_WALKALL, 0)), **U))
+    J.append(conc("2,0,0,0", hmap=0, ninit=3, init_keys=0x210, reclaim=2, prog0=prog((K_DEL, 0), (K_ADDU, 0)), prog1=prog((K_WALKALL, 0)),
+                  prog2=prog((K_DEL, 1), (K_ADDU, 1)), **U))
+    J.append(conc("1,0,0,0" if q else "2,0,0,0", workers=16, hmap=0, init=1, enum=2, nenum=2, nops=2, ninit=2, init_keys=0x10, reclaim=2, **U))
     # three competing add_unique on an absent key + walker; colliding other key present
     J.append(conc("2,0,0,0", workers=16, hmap=0, ninit=1, init_keys=1, prog0=prog((K_ADDU, 0)), prog1=prog((K_ADDU, 0)),
                   prog2=prog((K_ADDU, 0)), prog3=prog((K_WALKK, 0)), **U))
